@@ -163,7 +163,7 @@ void World::build(int slot, const NodeCfg &cfg, std::vector<ObjSpec> objs, const
     S.spec.EmcyCode = S.emcy; S.spec.TmrMem = S.tmrmem; S.spec.TmrNum = cfg.tmrNum; S.spec.TmrFreq = cfg.freq; S.spec.Drv = &S.drv; S.spec.SdoBuf = S.sdobuf;
 }
 
-void World::init(int slot) { cur = slot; Slot &S = s[slot]; S.lockDepth = 0; CONodeInit(S.node, &S.spec); }
+void World::init(int slot) { cur = slot; Slot &S = s[slot]; S.lockDepth = 0; paint_stack(); CONodeInit(S.node, &S.spec); }
 void World::start(int slot) { cur = slot; CONodeStart(s[slot].node); }
 void World::teardown(int slot) {
     Slot &S = s[slot];
@@ -222,12 +222,16 @@ std::vector<uint8_t> World::image(int slot) {
 }
 
 // ------------------------------------------------------------------ operations
+// Uninitialised stack reads inside the stack (e.g. frame bytes beyond the DLC) must not make a run depend on what the
+// harness left on the stack: overwrite the region below the current frame with a constant pattern before entering the stack.
+__attribute__((noinline)) void paint_stack() { volatile uint8_t pad[24576]; for (size_t i = 0; i < sizeof pad; i += 8) *(volatile uint64_t *)(pad + i) = 0xA5A5A5A5A5A5A5A5ull; }
+void World::paint_stack_hook() { paint_stack(); }
 void World::rx(int slot, const Frame &f) {
     Slot &S = s[slot];
     if (S.rx.size() >= S.cfg.rxDepth) { S.rxOverruns++; return; }
     S.rx.push_back(f);
 }
-void World::canproc(int slot) { cur = slot; s[slot].txInOp = 0; CONodeProcess(s[slot].node); }
+void World::canproc(int slot) { cur = slot; s[slot].txInOp = 0; paint_stack(); CONodeProcess(s[slot].node); }
 void World::drain(int slot, int max) { while (!s[slot].rx.empty() && max-- > 0) canproc(slot); }
 void World::isr(int slot) {
     int save = cur; cur = slot; Slot &S = s[slot];
@@ -235,9 +239,9 @@ void World::isr(int slot) {
     (void)COTmrService(&S.node->Tmr);
     cur = save;
 }
-void World::process(int slot) { cur = slot; COTmrProcess(&s[slot].node->Tmr); }
+void World::process(int slot) { cur = slot; paint_stack(); COTmrProcess(&s[slot].node->Tmr); }
 void World::tick(int slot, uint64_t n) {
-    cur = slot; Slot &S = s[slot];
+    cur = slot; Slot &S = s[slot]; paint_stack();
     int budget = 50000;   // a tick operation ends early after 50000 expiries (deterministic; keeps huge jumps cheap)
     while (n > 0 && budget-- > 0) {
         uint32_t c = S.counter;
